@@ -1,11 +1,12 @@
 #!/usr/bin/env python3
 # generates fn_table.ml (name -> extracted constructor, return kind) from coq/Dispatch.v
-import re,sys
-src=open('/verif/coq/Dispatch.v').read()
+import re,sys,os
+V=os.environ.get('VERIF_ROOT') or os.path.dirname(os.path.dirname(os.path.abspath(__file__)))
+src=open(V+'/coq/Dispatch.v').read()
 m=re.search(r'Inductive fn :=(.*?)\.\n',src,re.S)
 names=re.findall(r'F_(\w+)',m.group(1))
 # functions whose first result is a pointer
-ptr_ret=set(l.strip() for l in open('/verif/harness/ptr_ret.txt')) if __import__('os').path.exists('/verif/harness/ptr_ret.txt') else set()
+ptr_ret=set(l.strip() for l in open(V+'/harness/ptr_ret.txt')) if __import__('os').path.exists(V+'/harness/ptr_ret.txt') else set()
 out=["let fn_of_string = function"]
 for n in names:
     out.append('  | "%s" -> Some (Model.F_%s, \'%s\')'%(n,n,'P' if n in ptr_ret else 'I'))
